@@ -26,7 +26,7 @@ from ..normalize import inline_helpers
 from ..roles import bits_fn, bits_name
 from ..harness import Harness
 from ..interp import ExcVal, Obj, Raised
-from ..models import ccsds_bytes, make_interp, raw_packet, source_externals
+from ..models import ccsds_bytes, make_interp, model_definition, raw_packet, source_externals
 
 PK = "packets.py"
 DEF = "xtce/definitions.py"
@@ -236,7 +236,7 @@ def final_comparison(ctx: Ctx):
                 it = make_interp(prog, {"XtcePacketDefinition.parse_ccsds_packet": parse_stub,
                                         "space_packet_parser.packets.ccsds_generator": lambda b, **k: b})
                 it.on_event = lambda ev: warned.append(1) if ev[0] == "warn" else None
-                ys = it.call(fi, [Obj("XtcePacketDefinition", root_container_name="R"), [raw_packet(b"\x01\x02\x03", apid=9)]],
+                ys = it.call(fi, [model_definition(it, "R"), [raw_packet(b"\x01\x02\x03", apid=9)]],
                              {"parse_bad_pkts": pbp})
                 want_warn = delta != 0
                 want_yield = delta == 0 or pbp
